@@ -2,6 +2,7 @@
 Property handlers for the query-shaped properties.
 Each handler: run(report, rng, tier, findings) -> (proof modules, assumptions)
 """
+import random
 from . import gen, surface
 from .qcheck import run_query_cases, canon, all_selected, empty_unselected_domain
 from .surface import cond_size, cond_ops, cond_vars
@@ -247,6 +248,9 @@ def c02(report, rng, tier, findings):
         if rng.random() < 0.2:
             gen.apply_or_template(rng, cfg, case)
             report.count('template_disjunction_binds_unselected_variable')
+        elif nv >= 3 and i % 2 == 1:
+            gen.apply_three_var_template(random.Random(i * 17 + 3), cfg, case)
+            report.count('template_three_variables')
         cases.append(case)
     report.rule = ("random queries over 2-4 variables (30% sharing one domain list: self-joins), conditions over random "
                    "variable subsets, 1..n variables selected in random order, attribute expressions among the selected; "
@@ -254,7 +258,26 @@ def c02(report, rng, tier, findings):
                    "filter, caching on and off, two evaluations; non-trivial = condition neither constantly true nor false")
     judge = QueryJudge(report, findings, 'C02', nontrivial=nontrivial_filter)
     run_query_cases(report, cases, {'caching': (False, True), 'evals': 2}, judge)
+    # second stream: ONE comparison object (c = a.f == b.g) used at TWO places of one condition tree; evaluated with the
+    # object shared and with two separate objects - a deviation of the shared run only is known finding C02-F2
+    from .props_q2 import shared_twin_stream
+    shared = []
+    for i in range(max(20, n // 12)):
+        cfg = gen.Cfg(n_vars=(2, 2), n_objs=(2, 4), depth=1, empty_domain=0.0, preds=False)
+        base = gen.gen_case(rng, cfg, f'k{i}')
+        a, b = [v[0] for v in base['vars']]
+        c = ('cmp', rng.choice(('eq', 'le', 'ne')), ('attr', rng.choice('ab'), ('var', a)), ('attr', rng.choice('ab'), ('var', b)))
+        pa = gen.CondGen(rng, cfg, [a]).atom()
+        pb = gen.CondGen(rng, cfg, [b]).atom()
+        cond = rng.choice([('or', ('and', c, pa), ('and', c, pb)), ('or', ('and', pa, c), ('and', pb, c)),
+                           ('and', ('or', c, pa), ('or', c, pb)), ('or', ('and', c, pa), c)])
+        base.update({'sel': [('var', a), ('var', b)], 'entity': False, 'cond': [cond], 'quant': 'an'})
+        shared.append(base)
+    shared_twin_stream(report, findings, shared, 'share_conds', 'C02-F2', 'one_comparison_object_at_two_places_of_one_condition',
+                       'one comparison object used at two places of one condition tree',
+                       caching=(False,))      # (cache off: with the cache on, two-variable disjunctions are C05-F1's territory)
     return ['EqlModel.Props.C02'], [
         "every variable that is not selected has a non-empty domain (else known finding C02-F1)",
         "primitives do not raise on the dataset", "distinct objects in each domain",
-        "caching on: claimed for runs whose caches stay prefix-uniform (else known finding C05-F1)"]
+        "caching on: claimed for runs whose caches stay prefix-uniform (else known finding C05-F1)",
+        "a condition object stands at ONE place of the condition tree (one comparison object reused at two places: known finding C02-F2)"]
